@@ -436,13 +436,20 @@ def line_case(draw):
         g["dims"] = None  # see DESIGN section 6: a dimension called 'r' collides with the distance column
     nvdim = draw(st.integers(1, 4))
     kinds = ("c", "v", "f")
-    corner = draw(st.booleans())
-    if corner:
+    mode = draw(st.sampled_from(["corner", "corner", "free", "free", "end-on-face", "end-on-face"]))
+    if mode == "corner":
         p1 = [["v", draw(st.sampled_from([0, n]))] for n in g["n"]]
         p2 = [["v", draw(st.sampled_from([0, n]))] for n in g["n"]]
-    else:
+    elif mode == "free":
         p1 = draw(gen.probe_spec(g["n"], kinds))
         p2 = draw(gen.probe_spec(g["n"], kinds))
+    else:
+        # one end point inside the region, the other with coordinates exactly on the region's lower / upper faces:
+        # p1 + i*dl may miss that end by an ulp, on either side
+        inner = [["f", draw(st.integers(0, n - 1)), draw(st.integers(1, 19)) / 20] for n in g["n"]]
+        outer = [["v", draw(st.sampled_from([0, 0, n]))] if draw(st.integers(0, 3)) else
+                 ["f", draw(st.integers(0, n - 1)), draw(st.integers(1, 19)) / 20] for n in g["n"]]
+        p1, p2 = (inner, outer) if draw(st.booleans()) else (outer, inner)
     return {"g": g, "nvdim": nvdim, "vdims": draw(gen.vdims_strategy(nvdim)), "seed": draw(st.integers(0, 2**31)),
             "dtype": draw(st.sampled_from([None, "int"])), "p1": p1, "p2": p2,
             "npts": draw(st.one_of(st.integers(2, 12), st.sampled_from([100, 100, 37]))),  # 100 = the documented default
@@ -620,6 +627,6 @@ SUBS = [
 # objects with a history (reads that may fill caches, in-place writes): observables equal those of a fresh object
 from pbt import aged as _aged  # noqa: E402
 
-SUBS.append(_aged.sub("C02", quick=120))
+SUBS.append(_aged.sub("C02", quick=250))
 ASSUMPTIONS = list(ASSUMPTIONS) + ["aged sub-property: library results are a function of the public primary state "
                                    "(corners, n, names, units, bc, subregions, array, validity, labels, mapping, unit)"]
